@@ -30,7 +30,7 @@ RULE = (
     "distinct by construction; non-trivial = a patch scenario with at least one extra target or a CLI argv with at least "
     "one fakesnow option or one rest token."
 )
-REQUIRED = ["cmp_fresh_process", "cmp_after_exit", "cmp_inside", "cmp_engine_closed", "cmp_nested", "cmp_reentry", "cmp_cli_argv", "cmp_cli_dbpath",
+REQUIRED = ["cmp_fresh_process", "cmp_after_exit", "cmp_inside", "cmp_engine_closed", "cmp_kept_connection_closed", "cmp_stale_fake_connect", "cmp_nested", "cmp_reentry", "cmp_cli_argv", "cmp_cli_dbpath",
             "setup_failures_seen", "body_exceptions_seen"]
 ASSUMPTIONS = [
     "scenarios run inside the worker process; a leaked patch is detected by identity and forcibly undone before the next case",
@@ -269,19 +269,45 @@ def _run_patch(case: dict, env: core.Env) -> None:
             if root is not None and not root._closed:
                 env.witness(f"C20/patch/engine-not-closed/{mode}", "tap saw no close() on the instance's engine connection")
             if kept_conn is not None:
-                try:
-                    kept_conn.cursor().execute("select 1")
-                    env.witness(f"C20/patch/kept-connection-usable-after-exit/{mode}", "execute succeeded after exit")
-                except core.sferr.DatabaseError as e:
-                    if e.errno != 250002 or e.sqlstate != "08003":
-                        env.witness("C20/patch/kept-connection-wrong-error", f"{e.errno}/{e.sqlstate}")
-                except Exception as e:  # noqa: BLE001
-                    env.witness(f"C20/patch/kept-connection-wrong-exception/{type(e).__name__}", str(e)[:200])
+                env.count("cmp_kept_connection_closed")
+                if not kept_conn.is_closed():
+                    env.witness(f"C20/patch/kept-connection-not-closed/{mode}", "is_closed() is False after the block was left")
+                # every kind of statement is refused alike, whatever fakesnow does with it before it reaches the engine
+                for q in ("select 1", "SET c20_v = 1", "SELECT $c20_never_set", "UNSET c20_v", "ALTER TABLE c20_t SET TAG a = 'b'", "BEGIN", "COMMIT",
+                          "USE SCHEMA s1", "CREATE TABLE c20_late (id int)", "SHOW TABLES"):
+                    kind = q.split()[0].upper() + ("-" + q.split()[1].upper().lstrip("$").split("_")[0] if q.split()[0].upper() in ("SELECT", "ALTER") else "")
+                    try:
+                        kept_conn.cursor().execute(q)
+                        env.witness(f"C20/patch/kept-connection-usable-after-exit/{mode}" + ("" if q == "select 1" else f"/{kind}"), f"{q!r} succeeded after exit")
+                    except core.sferr.DatabaseError as e:
+                        if e.errno != 250002 or e.sqlstate != "08003":
+                            env.witness("C20/patch/kept-connection-wrong-error" + ("" if q == "select 1" else f"/{kind}"), f"{q!r}: {type(e).__name__} {e.errno}/{e.sqlstate}")
+                    except Exception as e:  # noqa: BLE001
+                        env.witness(f"C20/patch/kept-connection-wrong-exception/{type(e).__name__}", f"{q!r}: {str(e)[:200]}")
         elif first_bad:
             # setup failed: the instance it created must not stay open either
             if len(tap.SHIM.roots) > nroots and not tap.SHIM.roots[-1]._closed:
                 env.count("cmp_engine_closed")
                 env.witness(f"C20/patch/engine-not-closed/setup-fails-{first_bad}", "instance created by a failed patch() left open")
+        # ---- what was the fake connect inside a block is of no use once the block is left, also when nothing connected inside
+        env.count("cmp_stale_fake_connect")
+        stale = None
+        try:
+            with fakesnow.patch():
+                stale = s["sc"].connect
+        except Exception:  # noqa: BLE001
+            stale = None
+        if stale is not None and isinstance(stale, mock.MagicMock):
+            try:
+                c9 = stale(database="db1", schema="s1")
+                rows9 = c9.cursor().execute("select 9").fetchall()
+                env.witness("C20/patch/fake-connect-of-a-left-block-still-hands-out-working-connections", f"select 9 -> {rows9}")
+                try:
+                    c9.close()
+                except Exception:  # noqa: BLE001
+                    pass
+            except Exception:  # noqa: BLE001
+                pass
         # ---- patch() can be entered again (with the same extra targets when they were accepted) and the fakes work
         env.count("cmp_reentry")
         try:
